@@ -166,13 +166,24 @@ func genC16(t *Tape) (*SrvScenario, int) {
 				}
 			}
 			plan.Reqs = append(plan.Reqs, r)
-			plan.Writes = append(plan.Writes, len(r.Frame))
-			plan.Gaps = append(plan.Gaps, time.Duration(t.Choose(3))*time.Millisecond)
+			if len(r.Frame) > 1 && t.Chance(1, 3) {
+				// the frame arrives in two pieces (the cut inside the header or inside the body)
+				c := 1 + t.Choose(len(r.Frame)-1)
+				if t.Chance(1, 2) && len(r.Frame) > 8 {
+					c = 8 + t.Choose(len(r.Frame)-8)
+				}
+				plan.Writes = append(plan.Writes, c, len(r.Frame)-c)
+				plan.Gaps = append(plan.Gaps, time.Duration(t.Choose(3))*time.Millisecond, time.Duration(t.Choose(8000))*time.Microsecond)
+			} else {
+				plan.Writes = append(plan.Writes, len(r.Frame))
+				plan.Gaps = append(plan.Gaps, time.Duration(t.Choose(3))*time.Millisecond)
+			}
 		}
 		sc.Conns = append(sc.Conns, plan)
 	}
 	sc.ReadTimeout = []time.Duration{0, time.Millisecond, 20 * time.Millisecond}[t.Choose(3)]
 	sc.ReplyTimeout = 300 * time.Millisecond
+	sc.SharedHandlerErr = t.Choose(2) == 1
 	sc.StatelessDevice = true // replies are then a pure function of the request: history independence is exactly checkable
 	return sc, subject
 }
@@ -288,7 +299,7 @@ func runC16(rc *RunCtx) {
 
 	// --- history independence: the reply to a frame does not depend on what else was on the connection ---
 	if alone < len(co.Status) && subj.Reqs[alone].Mode != HPanic {
-		one := &SrvScenario{ReadTimeout: sc.ReadTimeout, ReplyTimeout: sc.ReplyTimeout, StatelessDevice: true}
+		one := &SrvScenario{ReadTimeout: sc.ReadTimeout, ReplyTimeout: sc.ReplyTimeout, StatelessDevice: true, SharedHandlerErr: sc.SharedHandlerErr}
 		r := subj.Reqs[alone]
 		one.Conns = []SrvConnPlan{{Reqs: []SrvReq{r}, Writes: []int{len(r.Frame)}, Gaps: []time.Duration{0}}}
 		rcA := &RunCtx{Prop: rc.Prop, Tier: rc.Tier}
